@@ -24,7 +24,7 @@ package, provided they all agree on the parameter list.
 
 import ast
 
-from ..srcmodel import walk_local, dotted, norm
+from ..srcmodel import walk_local, dotted, norm, literals
 from . import common
 
 
@@ -196,6 +196,24 @@ def default_agreement(ctx, funcs, rule='SIB-DEFAULTS'):
                                       where=fi.loc)
                     continue
                 n += 1
+                if a.value != b.value and isinstance(a.value, str) and isinstance(b.value, str):
+                    # a mode word the callee resolves itself:  if P == '<b>': P = '<x>' [...]
+                    resolved = set()
+                    for st_ in walk_local(cf.node):
+                        if isinstance(st_, (ast.If, ast.IfExp)) and any(
+                                txt == f"{q} == {b.value!r}" and pol for _e, txt, pol in literals([(st_.test, True)])):
+                            for y in ast.walk(st_):
+                                if isinstance(y, ast.Assign) and norm(y.targets[0]) == q and isinstance(y.value, ast.Constant):
+                                    resolved.add(y.value.value)
+                    if resolved:
+                        n += 1
+                        ctx.check(a.value in resolved, rule,
+                                  f"{fi.qualname}({p}={a.value!r}) names what {cf.qualname}({q}={b.value!r}) resolves to",
+                                  f"{b.value!r} -> {sorted(resolved)}",
+                                  f"{fi.qualname} defaults `{p}` to {a.value!r}, but {cf.qualname}'s own default {b.value!r} resolves "
+                                  f"to {sorted(resolved)}: the wrapper silently applies another mode than a direct call",
+                                  key=f"{rule}|{fi.qualname}|{cf.node.name}|{p}", where=fi.loc)
+                        continue
                 if a.value != b.value and (isinstance(a.value, str) or isinstance(b.value, str)):
                     # two mode words may name the same behaviour (PLSSDesc.
                     # filter_duplicates 'instance' == TractList 'default')
@@ -226,6 +244,7 @@ def check_all(ctx, module_suffixes=None, funcs=None, rules=('DEADPARAM', 'FORWAR
         out['delegates'] = delegate_names(ctx, funcs)
     out['stores'] = dead_stores(ctx, funcs) + overwritten_attr_stores(ctx, funcs)
     out['returns'] = mixed_returns(ctx, funcs)
+    out['shadow'] = instance_shadow_updates(ctx, funcs)
     ctx.ok('FORWARD', f"option forwarding in {len(funcs)} functions",
            f"{out.get('params', 0)} parameters examined for use, {out.get('forwarded', 0)} arguments handed "
            f"down under a parameter name, {out.get('defaults', 0)} default pairs compared, "
@@ -388,4 +407,44 @@ def mixed_returns(ctx, funcs, rule='RETURNS'):
                           f"`{norm(valued[-1])[:50]}` is not reached on every path: on the other one the function "
                           f"{'has a bare return' if bare else 'falls off its end'} and the caller gets None instead of the result",
                           key=f"{rule}|{fi.qualname}|mixed", where=common.loc(fi, site))
+    return n
+
+
+def instance_shadow_updates(ctx, funcs, rule='GLOBALS'):
+    """
+    `self.X += ...` (or `self.X = self.X + ...`) where X is bound in the
+    class body and never assigned per instance: the update creates an
+    instance attribute that shadows the class value, and the class value
+    (a creation counter, say) never changes.  Empty baseline.
+    """
+    n = 0
+    for fi in funcs:
+        top = fi
+        while top.outer is not None:
+            top = top.outer
+        ci = top.cls
+        if ci is None:
+            continue
+        class_level = {t.id for st in ci.node.body if isinstance(st, (ast.Assign, ast.AnnAssign))
+                       for t in (st.targets if isinstance(st, ast.Assign) else [st.target]) if isinstance(t, ast.Name)}
+
+        def unmangle(a):
+            pre = f"_{ci.name}"
+            return a[len(pre):] if a.startswith(pre + '__') else a
+        for x in walk_local(fi.node):
+            if isinstance(x, ast.AugAssign) and isinstance(x.target, ast.Attribute) and norm(x.target.value) == 'self':
+                name = unmangle(x.target.attr)
+                if name not in class_level:
+                    continue
+                # is it ever plainly assigned through self in this class? then it is an instance attribute
+                inst = any(isinstance(y, ast.Assign) and any(isinstance(t, ast.Attribute) and norm(t.value) == 'self'
+                                                               and unmangle(t.attr) == name for t in y.targets)
+                           for m in ci.methods.values() for y in ast.walk(m.node))
+                n += 1
+                ctx.check(inst, rule, f"{fi.qualname}: `{norm(x)[:40]}` updates an instance attribute",
+                          'the attribute is assigned per instance',
+                          f"`{norm(x)}`: `{name}` is bound in the body of class {ci.name} and never assigned per instance, so "
+                          f"this creates an instance attribute and leaves {ci.name}.{name} unchanged: the shared counter never "
+                          f"advances (every object sees the same value)",
+                          key=f"{rule}|{fi.qualname}|shadow|{name}", where=common.loc(fi, x))
     return n
